@@ -7,8 +7,8 @@ ALL = ['C%02d' % i for i in range(1, 18)]
 CLAIMED = {
  'C14': dict(
    technique='static analysis: path-sensitive dataflow over the statement CFG of the five main()s and xcmp::Driver (clang AST) + interprocedural parameter-binding trace + who-may-open / reachable-throw call-graph rules',
-   text='Decides the property structurally: every catch handler diagnoses to stderr and returns non-zero on all paths; the -o operand reaches the output std::fstream by positional binding (default "a.out"); run()\'s value reaches main\'s return on every path; a failed compile in xrun is non-zero; output files are opened only in the designated writers and nothing can reject after the open; option order independence. These are all shape properties of six small functions, so the static verdict covers every input and argument order; tests never start an executable.',
-   note='Trusted: clang 14 AST; frozen tables of allowed writers / accepted internal-invariant throws (named symbols with reasons). Not decided: behaviour of the host file system (failed opens are not diagnosed by the tools at all), std::exit paths of --help.',
+   text='Decides the property structurally: every catch handler diagnoses to stderr and returns non-zero on all paths; the -o operand reaches the output std::fstream by positional binding (default "a.out"); run()\'s value reaches main\'s return on every path; a failed compile in xrun is non-zero; output files are opened only in the designated writers and nothing can reject after the open (the accepted internal-invariant throws are re-verified each run); a failed open of the output is itself diagnosed (R7); option order independence. These are all shape properties of six small functions, so the static verdict covers every input and argument order; tests never start an executable.',
+   note='Trusted: clang 14 AST; frozen tables of allowed writers / accepted internal-invariant throws (named symbols with reasons). Not decided: behaviour of the host file system beyond the open (short writes, disk full), std::exit paths of --help. An -o branch or argument loop written in an unrecognised shape yields exit 2, not a violation.',
    ref='DESIGN.md section 5, C14'),
  'C02': dict(
    technique='static analysis: abstract interpretation of hexsim::Processor::run/syscall/HexSimIO (clang AST) over symbolic terms with trace partitioning on the 256 instruction bytes; effect summaries compared with the transcribed ISA by canonical form',
@@ -32,22 +32,22 @@ CLAIMED = {
    ref='DESIGN.md section 5, C16'),
  'C04': dict(
    technique='static analysis: interval x bit-slice abstract interpretation (trace partitioning by dynamic interval splitting) of Parser::parseInteger, numNibbles, InstrImm::getSize and the instruction branch of CodeGen::emitProgramBin (clang AST); emitted bytes folded with the ISA prefix rule as bit vectors',
-   text='Whole property: the int range is partitioned into value classes on which every branch of the sizing/encoding code is uniform (classes are split until it is); per class x 12 mnemonics the check shows no UB, a well-formed prefix chain of getSize() bytes with the right opcodes, and bit-for-bit reconstruction of the operand by the ISA prefix rule; both literal spellings are mapped onto int32 exactly. The partition covers all 2^32 values, which the suite (a few hundred values) cannot.',
+   text='Whole property: the int range is partitioned into value classes on which every branch of the sizing/encoding code is uniform (classes are split until it is); per class x 12 mnemonics the check shows no UB, a well-formed prefix chain of getSize() bytes with the right opcodes, and bit-for-bit reconstruction of the operand by the ISA prefix rule; both literal spellings are mapped onto int32 exactly, and the lexer's number branch (interpreted with strtoul's result as the partitioned input) delivers every literal 0..2^32-1 unchanged. The partition covers all 2^32 values, which the suite (a few hundred values) cannot.',
    note='Trusted: clang AST; the abstract interpreter (conditions must be uniform on a class else it is split; UB recorded per class); ISA prefix rule. Assumes two\'s complement and arithmetic >> on negative ints (true for the build compilers).',
    ref='DESIGN.md section 5, C04'),
  'C05': dict(
    technique='static analysis: abstract interpretation (intervals x low-bit congruence x affine forms) of CodeGen::resolveLabels / the CodeGen constructor / emitProgramBin on abstract directive sequences built by interpreting the directive constructors; a must-record CFG rule for the fixed-point exit; AST rule for the relative/absolute table',
-   text='Clauses, each a necessary condition: (R1) the layout loop cannot be left while an operand may be stale (CFG must-record rule) plus a two-reference template over all gap classes; (R2) every InstrLabel construction classifies its mnemonic as the ISA does; (R3) absolute references yield the word address when aligned and are rejected otherwise, for all residues; (R4) a label before DATA names the aligned word; (R5) layout offsets == bytes emitted == emitter\'s running offset == recorded symbol offsets for every directive kind/sequence x start residue; (R6) header length word; (R7) relative references are self-consistent and survive their encoding for every forward/backward gap class up to 2^22; (R8) termination measure of the layout iteration: the continue-flag is set only from the size setter, the setter never shrinks and reports true only on growth, sizes are bounded by 8 bytes, so at most 7 x references + 1 passes. Offsets are symbolic (start + constant), so each verdict covers all program sizes.',
+   text='Clauses, each a necessary condition: (R1) the layout loop cannot be left while an operand may be stale (CFG must-record rule) plus a two-reference template over all gap classes; (R2) every InstrLabel construction classifies its mnemonic as the ISA does; (R3) absolute references yield the word address when aligned and are rejected otherwise, for all residues; (R4) a label before DATA names the aligned word; (R5) layout offsets == bytes emitted == emitter\'s running offset == recorded symbol offsets for every directive kind/sequence x start residue; (R6) header length word; (R7) relative references are self-consistent and survive their encoding for every forward/backward gap class up to 2^22; (R8) termination measure of the layout iteration: the continue-flag is set only from the size setter, the setter never shrinks and reports true only on growth, sizes are bounded by 8 bytes, so at most 7 x references + 1 passes; (R3g) alignment of an absolutely referenced label is judged on the final layout (template with a growing branch in front of the label); (R7) also demands that every directive starts where the previous one ends after the last pass; (R7b) a reference longer than its final operand needs is emitted with getSize() bytes that decode to the operand. Offsets are symbolic (start + constant), so each verdict covers all program sizes.',
    note='NOT decided: minimality of the layout; programs with more than two mutually dependent references are covered by the CFG rule R1 and the measure R8, not by templates. An unrecognised loop idiom is reported as undecided (exit 2), not as a violation. Trusted: clang AST, interpreter, pc-relative/absolute tables of the property.',
    ref='DESIGN.md section 5, C05'),
  'C15': dict(
    technique='static analysis: symbolic step summaries of Processor::run with tracing on (trace() interpreted, format-chain arguments compared as canonical terms per instruction byte); writer/reader I/O-sequence agreement over the AST; import of the layout==emission abstract interpretation for symbol offsets; lookupSymbol interpreted over the complete ordering domain of small tables',
-   text='Clauses: (R1) for all 240 bytes and both layouts the trace prefix is formatted from (count, address, symbol+offset, mnemonic of the executed opcode, low nibble) with no truncating precision; (R2) symbol-table writer and reader agree element for element; (R3) each FUNC/PROC symbol is recorded with its layout offset for all directive sequences/start residues, one symbol per procedure; (R4) lookupSymbol is correct for every position of the address among 1..3 ascending offsets. The consequence "entry sequence = call sequence" additionally needs C01, which is not decided.',
+   text='Clauses: (R1) for all 240 bytes and both layouts the trace prefix is formatted from (count, address, symbol+offset, mnemonic of the executed opcode, low nibble) with no truncating precision; (R2) symbol-table writer and reader agree element for element; (R3) each FUNC/PROC symbol is recorded with its layout offset for all directive sequences/start residues, one symbol per procedure; (R4) lookupSymbol is correct for every position of the address among 1..3 ascending offsets, also for two lookups in succession on a really constructed object (history independence); (R5) the offset printed is measured from exactly the symbol shown, for tables whose names are prefixes of one another. The consequence "entry sequence = call sequence" additionally needs C01, which is not decided.',
    note='Trusted: clang AST; boost::format prints arguments in order. lookupSymbol with an empty table is only reached when debugInfo is non-empty (guarded in trace).',
    ref='DESIGN.md section 5, C15'),
  'C17': dict(
    technique='static analysis: abstract interpretation (affine offsets, abstract strings) of CodeGen::emitProgramText per directive kind; import of layout==emission (C05-R5) and of the value-class encoding check (C04) for the printed size/operand',
-   text='Structural whole: each listing line prints the layout offset, the text and the same virtual getSize() that drives emission, the operand shown is getValue() (what emission encodes), offsets printed are the offsets at which bytes are written (all directive kinds/sequences x start residues), the listed size/operand is what the emitted prefix chain decodes to (all value classes), and both entry points print the object that would be emitted.',
+   text='Structural whole: each listing line prints the layout offset, the text and the same virtual getSize() that drives emission, the operand shown is getValue() (what emission encodes), offsets printed are the offsets at which bytes are written (all directive kinds/sequences x start residues), the listed size/operand is what the emitted prefix chain decodes to (all value classes), the offsets listed behind a reference that had to grow are those of the final layout and over-long references are emitted with the listed size (R5, import of C05-R7/R7b), and both entry points print the object that would be emitted.',
    note='PADDING lines excluded (as in the property). The early-exit divergence described in the property text could not be reproduced on the pinned tree (listings described the - wrong - binary exactly); see DESIGN.md.',
    ref='DESIGN.md section 5, C17'),
  'C11': dict(
@@ -57,37 +57,37 @@ CLAIMED = {
    ref='DESIGN.md section 5, C11'),
  'C13': dict(
    technique='static analysis: Verilator-XML symbolic evaluation under reset for all 256 bytes (registers cleared, write enable false); abstract interpretation of hextb.cpp run() on its own clock/reset/time scalars with adversarial DUT outputs, yielding the exact (time, clk, rst) schedule of eval() and handleSyscall() calls',
-   text='Clauses (necessary conditions for seed independence): under reset every architectural register is cleared and memory cannot be written for any instruction byte the power-on state may present; the testbench asserts reset at or before the first evaluated rising clock edge, evaluates inside reset, releases it, and services no system call before release; the image is loaded before the clock starts.',
+   text='Clauses (necessary conditions for seed independence): under reset every architectural register is cleared and memory cannot be written for any instruction byte the power-on state may present; the testbench asserts reset at or before the first evaluated rising clock edge, evaluates inside reset, releases it, and services no system call before release; the image is loaded before the clock starts; the system-call shim stores a result on every READ path and sets the exit value on every EXIT path (nothing is left to power-on memory).',
    note='Not decided: per-seed outcomes and Verilator\'s randomisation model. The repaired tree was additionally swept over 2000 seeds outside the check (0 deviations; 4 in 1500 before).',
    ref='DESIGN.md section 5, C13'),
  'C06': dict(
    technique='static analysis (compositional): symbolic effect summaries of hextb.cpp handleSyscall vs hexsim::Processor::syscall compared by canonical form; AST rules for the loader; abstract interpretation of run() (clock/reset/request schedule, exit-value flow)',
-   text='Compositional clauses on top of C02 (hexsim == ISA) and C03 (RTL == ISA): the system-call shim has exactly the simulator\'s effects for EXIT/WRITE/READ (argument slots, 8-bit truncation, stream routing primitives, store, exit value) and rejects other numbers; the loader puts the image at word 0 with the header<<2 size rule; after reset each requesting clock is serviced exactly once (also back-to-back), nothing is serviced without a request, EXIT ends the run and run() returns the exit value unchanged for all 32-bit values.',
+   text='Compositional clauses on top of C02 (hexsim == ISA) and C03 (RTL == ISA): the system-call shim has exactly the simulator\'s effects for EXIT/WRITE/READ (argument slots, 8-bit truncation, stream routing primitives, store, exit value) and rejects other numbers; the loader puts the image at word 0 with the header<<2 size rule and copies all bytes read (no clip bound below the memory size in bytes); after reset each requesting clock is serviced exactly once (also back-to-back), nothing is serviced without a request, EXIT ends the run and run() returns the exit value unchanged for all 32-bit values.',
    note='Not decided: end-to-end equality for concrete binaries/inputs (follows from the clauses only for programs that never read unwritten memory: hextb copies the symbol tables behind the image); stdout banner. Imports C02/C03 verdicts.',
    ref='DESIGN.md section 5, C06'),
  'C01': dict(
    technique='static analysis: abstract interpretation (intervals, affine frame offsets, abstract AST objects built by the real constructors) of ExprCodeGen/StmtCodeGen/CodeBuffer/OptimiseExpr/ConstProp over all operator x operand-kind shapes with sub-expression code as an opaque step; template analysis of the generated directive sequences; AST rules',
-   text='Structural necessary conditions only (equivalence of source and binary for every program is not decidable statically here): R1 register-target discipline; R2 the tree survives code generation (no moved-from child); R3 label classification; R4 generated labels cannot be identifiers; R5 frame-offset balance of every call/operator template; R6 string packing incl. the empty string; R7 operator coverage; R8 spill-slot discipline (values read back after a sub-expression sit in reserved frame slots; outgoing actuals are protected from later temporaries, proved with symbolic frame-size lower bounds); R9/R10 the expression optimiser and the folder preserve the X meaning of every operator/operand-class shape on the ordering domain; R11 executing the generated instruction template of every operator x operand-kind pair (sub-expression code an opaque step) leaves the X meaning in areg for every ordering/zero-test combination; R12 the if/while templates execute exactly the X control flow (branch polarity, loop back-edge) for all skip/non-skip shapes. Breaking any of them miscompiles or crashes on some program.',
+   text='Structural necessary conditions only (equivalence of source and binary for every program is not decidable statically here): R1 register-target discipline; R2 the tree survives code generation (no moved-from child); R3 label classification; R4 generated labels cannot be identifiers; R5 frame-offset balance of every call/operator template; R6 string packing incl. the empty string; R7 operator coverage; R8 spill-slot discipline (values read back after a sub-expression sit in reserved frame slots; outgoing actuals are protected from later temporaries, proved with symbolic frame-size lower bounds); R9/R10 the expression optimiser and the folder preserve the X meaning of every operator/operand-class shape on the ordering domain; R11 executing the generated instruction template of every operator x operand-kind pair (sub-expression code an opaque step) leaves the X meaning in areg for every ordering/zero-test combination; R12 the if/while templates execute exactly the X control flow (branch polarity, loop back-edge) for all skip/non-skip shapes; R4 every label operand is traced back to its origin (literal / source name / concatenation / format) and generated names cannot be X identifiers; R13 folding never deletes the evaluation of a call; R14 each actual of a call is stored through a freshly loaded stack pointer (breg does not survive non-leaf actuals); R15 no statement template overwrites a named variable before a later sub-expression that mentions it. Breaking any of them miscompiles or crashes on some program.',
    note='NOT decided: composition of the templates into whole programs (an induction over program structure that the check does not carry out), calling-convention slot numbers beyond R5/R8, peephole soundness on arbitrary directive streams, run-time recursion depth; hence a pass is not a proof of C01. Trusted: clang AST; interpreter; X operator table.',
    ref='DESIGN.md section 5, C01'),
  'C07': dict(
    technique='static analysis: abstract interpretation of ConstProp / OptimiseExpr / genConst on abstract AST objects over the complete ordering domain of operand values and over operand classes (variable, zero, constant, operator sub-tree); interval analysis for overflow; CFG guard rule for val propagation',
-   text='Clauses: R1 the fold table equals the X operator table for every ordering/zero-test combination; R2 every rewrite (~=, >=, >, <=, unary minus, and anything else OptimiseExpr does to an operator over each operand class, unary operators over every operator below) preserves meaning on the ordering domain; R3 folding of + - unary- over all of int has no signed overflow and wraps; R4 folded constants are materialised in the requested register; R5 val names are propagated only when constant; R6 genConst loads the requested value into the requested register, immediate inside (-65536,65536), one pool word per value outside.',
+   text='Clauses: R1 the fold table equals the X operator table for every ordering/zero-test combination; R2 every rewrite (~=, >=, >, <=, unary minus, and anything else OptimiseExpr does to an operator over each operand class, unary operators over every operator below) preserves meaning on the ordering domain; R3 folding of + - unary- over all of int has no signed overflow and wraps; R4 folded constants are materialised in the requested register; R5 val names are propagated only when constant; R6 genConst loads the requested value into the requested register, immediate inside (-65536,65536), one pool word per value outside; R7 executing the instruction templates for operands of the shapes c, x+c, x-c, c-x leaves the X value (constants inside larger expressions); R8 folding with a non-constant operand happens only where X does not evaluate that operand (calls are effects; for variables the value must be independent of them); R9 every propagated val value is data-dependent on the scoped SymbolTable::lookup (a local may hide a global val).',
    note='Comparison operators inspect operands only through their order, so the ordering domain is exact for them; agreement with the run-time code sequence where the subtraction inside < wraps is a documented gap (not decided).',
    ref='DESIGN.md section 5, C07'),
  'C08': dict(
    technique='static analysis: abstract interpretation of xcmp::LowerDirectives, CodeGen stub generation and the call templates with symbolic frame size / array space; a small affine executor of Hex instructions for the lowered prologue/epilogue; symbolic frame-size lower bounds for outgoing words',
-   text='Clauses: R1 prologue/epilogue are exact inverses on the stack pointer for functions and procedures with S=0 and S>0, link/result slots are where the caller expects them, formal i == actual i, frame-base lowering is S+O-1; R2 the initial stack pointer keeps every word the exit stub and stop touch below the arrays and inside the 200000-word memory shared with the simulator; R3 each call/syscall/stop sequence sizes the frame for its outgoing words; R4 array placement from the top of memory; R5/R6 frame balance and spill/outgoing-actual discipline (import of C01-R5/R8).',
+   text='Clauses: R1 prologue/epilogue are exact inverses on the stack pointer for functions and procedures with S=0 and S>0, link/result slots are where the caller expects them, formal i == actual i, frame-base lowering is S+O-1; R2 the initial stack pointer keeps every word the exit stub and stop touch below the arrays and inside the 200000-word memory shared with the simulator; R3 each call/syscall/stop sequence sizes the frame for its outgoing words; R4 array placement from the top of memory; R5/R6 frame balance and spill/outgoing-actual discipline (import of C01-R5/R8); R7 generated labels cannot collide with user names (import of C01-R4: a collision sends a branch or call into the wrong code); R8 actuals are stored through a freshly loaded stack pointer (import of C01-R14: a stale breg stores anywhere).',
    note='NOT decided: per-access bounds of arbitrary executions, recursion depth vs. stack budget, array subscripts, unchecked array lengths. Trusted: clang AST; interpreter; ISA semantics of 12 instructions in the affine executor.',
    ref='DESIGN.md section 5, C08'),
  'C09': dict(
    technique='static analysis: AST/CFG rules over xcmp.cpp (thrown types, try containment, use-after-move dataflow, never-null lookup, checked downcasts with a frozen guard table), call-graph SCC analysis with depth-guard recognition, plus abstract interpretation of the lexer on the input class c.EOF* and imports of the moved-from-child, overflow and val-guard rules',
-   text='Clauses (necessary conditions; "all byte strings" is a dynamic quantifier): R1 every throw derives from std::exception and the drivers run the compiler inside catching try blocks; R2 no read of the uninitialised val value; R3 no null child / moved-from dereference during code generation for all operator x operand shapes; R4 no signed overflow in folding; R5 no use of a unique_ptr variable after std::move; R6 SymbolTable::lookup never returns null; R7 every dereferenced dynamic_cast is null-tested or guard-recorded; R8 the lexer reaches END_OF_FILE or a diagnostic on c.EOF* for all 256 bytes (thorough: byte pairs/triples); R9 string packing never reads past the literal; R10 every recursive cycle of the resolved call graph reachable from main() (virtual calls fanned out to all overriders) passes through a depth guard (counter checked against a constant <= 2000, throwing, before recursing) or descends one syntax-tree level per call with the tree-building parser so guarded - stack exhaustion on nested input is otherwise a crash on a 36 kB source.',
+   text='Clauses (necessary conditions; "all byte strings" is a dynamic quantifier): R1 every throw derives from std::exception and the drivers run the compiler inside catching try blocks; R2 no read of the uninitialised val value; R3 no null child / moved-from dereference during code generation for all operator x operand shapes; R4 no signed overflow in folding; R5 no use of a unique_ptr variable after std::move; R6 SymbolTable::lookup never returns null; R7 every dereferenced dynamic_cast is null-tested or guard-recorded; R8 the lexer reaches END_OF_FILE or a diagnostic on c.EOF* for all 256 bytes (thorough: byte pairs/triples); R9 string packing never reads past the literal; R10 every recursive cycle of the resolved call graph reachable from main() (virtual calls fanned out to all overriders) passes through a depth guard (counter checked against a constant <= 2000, throwing, before recursing) or descends one syntax-tree level per call with the tree-building parser so guarded - stack exhaustion on nested input is otherwise a crash on a 36 kB source; R11 the directive peephole pass, interpreted on the streams the real code generator and lowering produce for the smallest programs (no procedure; one procedure), makes no out-of-range vector access.',
    note='NOT decided: out-of-bounds accesses in general, ctype on plain char, whether the accepted depth constant fits the stack of a given host (calibrated by measurement: crashes began at 9024 levels at -O0 / 8 MB). Trusted: clang AST; DOWNCAST_GUARDS table; control fixture fixtures/recursion.cpp re-analysed on every run.',
    ref='DESIGN.md section 5, C09'),
  'C10': dict(
    technique='static analysis: AST rules (thrown types, try containment, downcast guard table), call-graph SCC analysis + abstract interpretation of resolveLabels/CodeGen on degenerate and undefined-label programs, of the lexer on c.EOF* for all bytes, and imports of the UB-free sizing (C04-R1) and unaligned-reference (C05-R3) rules',
-   text='Clauses: R1 exception discipline and containment in hexasm.cpp; R2 undefined labels are rejected with hexutil::Error for relative and absolute references without null dereference; R3 empty and label-only programs are laid out without UB; R4 the lexer terminates at end of input after any byte; R5 checked downcasts; R8 no UB while sizing/encoding immediates over the whole int range; R9 unaligned absolute references are rejected; R10 termination measure of the layout iteration (import of C05-R8); R11 no unbounded recursion reachable from main() (call-graph SCC rule, as C09-R10).',
+   text='Clauses: R1 exception discipline and containment in hexasm.cpp; R2 undefined labels are rejected with hexutil::Error for relative and absolute references without null dereference; R3 empty and label-only programs are laid out without UB; R4 the lexer terminates at end of input after any byte; R5 checked downcasts; R8 no UB while sizing/encoding immediates over the whole int range; R9 unaligned absolute references are rejected; R10 termination measure of the layout iteration (import of C05-R8); R11 no unbounded recursion reachable from main() (call-graph SCC rule, as C09-R10); R12 nothing is rejected after the output file has been opened (import of C14-R4; the construction-time validation that makes the remaining throws unreachable is re-verified each run).',
    note='NOT decided: ctype on plain char, arbitrary byte strings beyond the listed input classes (the clauses are necessary conditions).',
    ref='DESIGN.md section 5, C10'),
 }
@@ -119,7 +119,7 @@ def main():
                   'baseline_off_cmd': 'cmake -G Ninja -S /repo -B /repo/_build -DCMAKE_BUILD_TYPE=RelWithDebInfo -DCMAKE_CXX_FLAGS=-Wno-error && cmake --build /repo/_build && ctest --test-dir /repo/_build -j8 --timeout 900',
                   'source_commits': [], 'add_only': True},
         'engines': [{'name': 'hexsa', 'path': '/verif/hexsa', 'serves_properties': sorted(CLAIMED),
-                     'kind_free_text': 'repository-specific static analysis in Python over clang\'s JSON AST (via a small clang plugin) and Verilator\'s XML AST: CFG/dataflow rules, symbolic effect summaries compared by canonical form, interval/bit-slice abstract interpretation'}],
+                     'kind_free_text': 'repository-specific static analysis in Python over clang\'s JSON AST (via a small clang plugin) and Verilator\'s XML AST: CFG/dataflow rules, call-graph SCC and value-origin (backward slice) analyses, symbolic effect summaries compared by canonical form, interval/bit-slice abstract interpretation'}],
         'checks': checks,
         'not_applicable': [{'property_id': p, 'reason': NOT_YET} for p in ALL if p not in CLAIMED],
         'notes': 'exit codes: 0 held / 1 VIOLATION / 2 analysis broken. known_findings.json lists repaired (fixed:) and recorded (known) genuine defects. fix commits in /repo: ' + '; '.join(commits),
